@@ -272,6 +272,28 @@ func judge(c Case, purls []string, res runResult) *verdict {
 		}
 	}
 	v := judgeOutcome(c, exps, res)
+	if v == nil && res.Final == "eos" {
+		// "ends with ErrClientEOS after the last segment has been delivered": when Wait returns
+		// ErrClientEOS every unit of every fetched (video) segment has been handed to the application,
+		// once and in order
+		ok := len(res.Delivered) == res.Media0
+		for i, k := range res.Delivered {
+			if k != i%256 {
+				ok = false
+			}
+		}
+		if !ok {
+			late := ""
+			for _, e := range exps {
+				if e.OutTag == "C11:eos:endlist-after-last-segment-fetched" {
+					late = ":endlist-after-last-segment-fetched"
+				}
+			}
+			return &verdict{Sig: "C11:eos:before-delivery" + late,
+				What: fmt.Sprintf("Client.Wait returned ErrClientEOS when the units of media requests %v had been delivered; %d were fetched (0..%d): "+
+					"the end of the stream was reported before the last segments reached the application", res.Delivered, res.Media0, res.Media0-1)}
+		}
+	}
 	if v != nil && len(c.Streams) > 1 && res.Final == "next" {
 		// root cause: a rendition that had delivered everything when ENDLIST appeared reported
 		// "next segment not found" and thereby cut the other renditions short
